@@ -1,5 +1,6 @@
 import MidnightZK.Model.Common
 import MidnightZK.Model.C09.Planner
+import MidnightZK.Model.C09.Tables
 import Std.Data.HashMap
 /-! Line-protocol handler of property C09.
 
@@ -10,6 +11,10 @@ Requests:
 * `layout K=… U=… M=… ; <item> ; <item> …` — the region-relative call log of one synthesis;
   answer: region starts, digest of the absolute call sequence, number of calls, cost model
   (`rows`, `trows`, `irows`, `k`) and digest of the keygen view (fixed cells and selectors).
+* `p2r <max_bit_len> <queried tags>` — answer: number of rows and digest of the `(tag, value)`
+  rows of the range table.
+* `tables <arch flags> <used flags>` (six 0/1 flags each: sha256 sha512 base64 automaton
+  keccak/sha3 blake2b) — answer: the tables `MidnightCircuit::synthesize` loads, in order.
 * `cache <c1> <c2> …` — constants passed to `assign_fixed`; answer: cached-cell index per request
   and the values for which a fixed cell was created, in order.
 -/
@@ -194,6 +199,32 @@ def answerCache (cs : List String) : String :=
     s!"{fmtNatList r.2} ; {fmtHexList r.1}"
   | none => "bad-op"
 
+def answerP2r (ws : List String) : String :=
+  match ws with
+  | [m, q] =>
+    match m.toNat?, parseNatList? q with
+    | some m, some q =>
+      let rows := pow2rangeRows m q
+      s!"n={rows.length} D={rows.foldl (fun h r => tok (tok h r.1) r.2) 0}"
+    | _, _ => "bad-op"
+  | _ => "bad-op"
+
+def parseChips? (s : String) : Option Chips :=
+  match s.toList with
+  | [a, b, c, d, e, f] =>
+    if [a, b, c, d, e, f].all (fun x => x == '0' || x == '1') then
+      some ⟨a == '1', b == '1', c == '1', d == '1', e == '1', f == '1'⟩
+    else none
+  | _ => none
+
+def answerTables (ws : List String) : String :=
+  match ws with
+  | [a, u] =>
+    match parseChips? a, parseChips? u with
+    | some a, some u => " ".intercalate (stdlibTables a u)
+    | _, _ => "bad-op"
+  | _ => "bad-op"
+
 def answer (line : String) : String :=
   let parts := line.trimAscii.toString.splitOn " ; "
   match parts with
@@ -204,6 +235,8 @@ def answer (line : String) : String :=
     | "place" :: _ => answerPlace hdr (" ".intercalate rest)
     | "layout" :: _ => answerLayout hdr rest
     | "cache" :: cs => if rest.isEmpty then answerCache cs else "bad-op"
+    | "p2r" :: ws => if rest.isEmpty then answerP2r ws else "bad-op"
+    | "tables" :: ws => if rest.isEmpty then answerTables ws else "bad-op"
     | _ => "bad-op"
 
 end MidnightZK.C09.Driver
